@@ -380,7 +380,11 @@ func NewService(s *SvcSpec, order []int, o BuildOpts, svcIdx int) *restful.WebSe
 	if svcIdx%3 == 1 {
 		ws.Path("/superseded/{x:[0-9]+}") // configuration calls may be repeated: the last root path counts
 	}
-	ws.Path(s.RenderRoot())
+	if s.RootStyle == 2 && len(s.Root) == 0 && svcIdx%3 != 1 {
+		// no Path call at all: the root path defaults to "/" when the service is added
+	} else {
+		ws.Path(s.RenderRoot())
+	}
 	if o.Dynamic {
 		ws.SetDynamicRoutes(true)
 	}
